@@ -54,6 +54,13 @@ pub fn encode_chunked(payload: &[u8], sizes: &[usize], styles: &[ChunkStyle], ch
         chunk_ends.push((out.len(), pos));
     }
     assert_eq!(pos, payload.len());
+    // the last-chunk line is `1*"0"`: when the first style pads heavily, so does the terminator
+    let pad = styles.first().map_or(0, |st| st.leading_zeros);
+    if pad >= 15 {
+        for _ in 0..pad {
+            out.push(b'0');
+        }
+    }
     out.extend_from_slice(b"0\r\n\r\n");
     out
 }
@@ -65,7 +72,8 @@ pub fn random_styles(rng: &mut Rng) -> Vec<ChunkStyle> {
     (0..n)
         .map(|_| ChunkStyle {
             upper_hex: rng.bool(),
-            leading_zeros: if rng.chance(1, 4) { rng.range(1, 6) } else { 0 },
+            // (chunk-size = 1*HEXDIG: zero padding beyond the width of a machine word is legal too)
+            leading_zeros: if rng.chance(1, 4) { *rng.pick(&[1usize, 2, 3, 4, 5, 15, 16, 17, 30]) } else { 0 },
             extension: if rng.chance(1, 4) { Some(rng.pick(EXTENSIONS).to_vec()) } else { None },
         })
         .collect()
